@@ -180,10 +180,10 @@ def generate(rng, tier: str, boost: int):
         if sep is not None:
             # stay inside the zone both paths accept: |payload| + |sep| < limit   (C07)
             maxlen = max(1, min(12, lim - len(sep) - 1 - (len(sep) if sers.keep_end(spec) else 0)))
-        if spec["k"] == "filetoy":
+        if spec["k"] in ("filetoy", "filepeek"):
             maxlen = max(0, min(12, lim // 2 - 2))
         packets = [sers.gen_packet(rng, spec, maxlen) for _ in range(rng.randint(1, 6))]
-        if sers.limit_of(spec) is not None and spec["k"] != "filetoy":
+        if sers.limit_of(spec) is not None and spec["k"] not in ("filetoy", "filepeek"):
             # byte length (not character count) decides: keep every produced frame strictly inside the limit
             frames = sd.produce(spec, packets)
             if any(len(f) >= lim for f in frames):
@@ -200,7 +200,7 @@ def generate(rng, tier: str, boost: int):
         if path == "buffered":
             cuts = [c for c in cuts if c > 0] or [1]
         hint = rng.choice([1, 2, 3, 8, 64, 16384])
-        if spec["k"] == "filetoy":
+        if spec["k"] in ("filetoy", "filepeek"):
             # generic wrapper: frame + one read must stay within the limit (C07 table)
             hint = min(hint, max(1, lim // 2))
             cuts = [min(c, max(1, lim // 2)) for c in cuts]
